@@ -816,11 +816,12 @@ pub struct LangParams {
     pub inline: bool,
     /// rule-level and production-level associativity may be combined (C09 only)
     pub mixed_assoc: bool,
+    pub max_terms: usize,
 }
 
 impl LangParams {
     pub fn full() -> Self {
-        LangParams { max_nts: 5, max_alts: 3, max_syms: 4, sugar: true, meta: true, assigns: true, inline: true, mixed_assoc: true }
+        LangParams { max_nts: 5, max_alts: 3, max_syms: 4, sugar: true, meta: true, assigns: true, inline: true, mixed_assoc: true, max_terms: 7 }
     }
 }
 
@@ -862,22 +863,22 @@ fn build_meta(m: &RawMeta, on: bool, allow_kind: bool, allow_assoc: bool) -> Met
     if !on {
         return out;
     }
-    if m.prio % 4 == 0 {
+    if m.prio % 4 == 3 {
         out.prio = Some(PRIOS[(m.prio as usize / 4) % PRIOS.len()]);
     }
-    if allow_assoc && m.assoc % 4 == 0 {
+    if allow_assoc && m.assoc % 4 == 3 {
         out.assoc = Some(ASSOCS[(m.assoc as usize / 4) % ASSOCS.len()]);
     }
-    if m.flags % 8 == 0 {
+    if m.flags % 8 == 6 {
         out.nops = true;
     }
-    if m.flags % 8 == 1 {
+    if m.flags % 8 == 7 {
         out.nopse = true;
     }
-    if allow_kind && m.kind % 5 == 0 {
+    if allow_kind && m.kind % 5 == 4 {
         out.kind = Some(KINDS[(m.kind as usize / 5) % KINDS.len()].to_string());
     }
-    if m.user % 6 == 0 {
+    if m.user % 6 == 5 {
         let k = USER_KEYS[(m.user as usize / 6) % USER_KEYS.len()].to_string();
         let v = match (m.user / 18) % 4 {
             0 => UserVal::Int(m.user as u32),
@@ -923,14 +924,14 @@ pub fn g_lang(p: LangParams) -> impl Strategy<Value = GrammarSpec> {
     )
         .prop_map(move |(mask, rules, tmeta)| {
             let pool = lang_terms();
-            let mut terms = select_terms(&pool, mask, 7, 3);
+            let mut terms = select_terms(&pool, mask, p.max_terms, 3.min(p.max_terms));
             for (i, t) in terms.iter_mut().enumerate() {
                 if p.meta {
                     let (a, b) = tmeta[i % tmeta.len()];
-                    if a % 6 == 0 {
+                    if a % 6 == 5 {
                         t.prio = Some(PRIOS[(a as usize / 6) % PRIOS.len()]);
                     }
-                    if b % 6 == 0 {
+                    if b % 6 == 5 {
                         t.assoc = ASSOCS[(b as usize / 6) % ASSOCS.len()];
                     }
                 }
@@ -940,7 +941,7 @@ pub fn g_lang(p: LangParams) -> impl Strategy<Value = GrammarSpec> {
             let str_terms: Vec<usize> = (0..nt).filter(|i| !terms[*i].is_regex()).collect();
             let mut out_rules = vec![];
             for (i, (alts, base, rmeta)) in rules.iter().enumerate() {
-                let rule_meta = build_meta(rmeta, p.meta && rmeta.kind % 3 == 0, false, true);
+                let rule_meta = build_meta(rmeta, p.meta && rmeta.kind % 3 == 2, false, true);
                 let mut out_alts: Vec<AltSpec> = vec![];
                 for (syms, ameta) in alts {
                     let mut uses = vec![];
@@ -949,12 +950,12 @@ pub fn g_lang(p: LangParams) -> impl Strategy<Value = GrammarSpec> {
                         let sym = if s.is_nt { Sym::N(pick(s.idx, nn)) } else { Sym::T(pick(s.idx, nt)) };
                         let mut u = SymUse::plain(sym);
                         if let Sym::T(t) = sym {
-                            if p.inline && !terms[t].is_regex() && s.inline % 3 == 0 {
+                            if p.inline && !terms[t].is_regex() && s.inline % 3 == 2 {
                                 u.inline = true;
                                 u.dquote = s.inline % 2 == 0;
                             }
                         }
-                        if p.sugar && s.rep % 4 == 0 {
+                        if p.sugar && s.rep % 4 == 3 {
                             let op = match (s.rep / 4) % 3 {
                                 0 => RepOp::Opt,
                                 1 => RepOp::Star,
@@ -967,7 +968,7 @@ pub fn g_lang(p: LangParams) -> impl Strategy<Value = GrammarSpec> {
                             };
                             u.rep = Some((op, sep));
                         }
-                        if p.assigns && s.assign % 4 == 0 {
+                        if p.assigns && s.assign % 4 == 3 {
                             let base = ASSIGN_NAMES[(s.assign as usize / 4) % ASSIGN_NAMES.len()];
                             let mut name = base.to_string();
                             let mut k = 2;
